@@ -214,7 +214,7 @@ func runWorkerEnv(bin string, job Job, scratch string, name string, timeout time
 		return nil, "", err
 	}
 	cmd := exec.Command(bin, "-test.run", "^TestWorker$", "-test.timeout", "0")
-	cmd.Env = append(os.Environ(), "VERIF_JOB="+jf, extraEnv, "GORACE=halt_on_error=0 log_path="+filepath.Join(scratch, name+".race"))
+	cmd.Env = append(os.Environ(), "VERIF_JOB="+jf, extraEnv, "GODEBUG=randseednop=0", "GORACE=halt_on_error=0 log_path="+filepath.Join(scratch, name+".race"))
 	cmd.Dir = scratch
 	done := make(chan struct{})
 	var out []byte
